@@ -367,7 +367,7 @@ static std::string runT(TS &ts)
     items.back()->ty = ty;
   }
   std::ostringstream out;
-  std::string reuse, statics;
+  std::string reuse, statics, copies;
   // ---- encode with the real BufferWriter, size with the real WriteSizeCalculator
   BufferWriter bw;
   try {
@@ -488,6 +488,89 @@ static std::string runT(TS &ts)
     }
     statics = res.empty() ? "ok" : res;
   }
+  // ---- implicitly-declared special members and flush(): copies / moves / assignments of each stream class.
+  // A copy of a writer SHARES the buffer object (shared_ptr member); a copy of a reader shares the buffer and
+  // continues from the same cursor, independently; WriteSizeCalculator copies count independently.
+  {
+    std::string res;
+    auto differs = [&](const uint8_t *p, size_t n) { return n != enc.size() || (n && std::memcmp(p, enc.data(), n) != 0); };
+    try {
+      {
+        BufferWriter a;
+        for (auto &it : items) it->put(a);
+        BufferWriter b(a);
+        if (b.buffer != a.buffer) res = "BufferWriter(copy):notShared";
+        a.flush();
+        WriteStream &ws = a;
+        ws.flush();
+        uint8_t z = 0x5a;
+        b.write(&z, 1);
+        if (res.empty() && (a.buffer->size() != enc.size() + 1 || a.buffer->begin()[enc.size()] != 0x5a || differs(a.buffer->begin(), enc.size())))
+          res = "BufferWriter(copy):writeNotVisible";
+        BufferWriter c;
+        c = a;
+        BufferWriter m(std::move(c));
+        BufferWriter m2;
+        m2 = std::move(m);
+        if (res.empty() && m2.buffer != a.buffer) res = "BufferWriter(assign/move):notShared";
+      }
+      {
+        WriteSizeCalculator a;
+        for (auto &it : items) it->put(a);
+        WriteSizeCalculator b(a);
+        b.write(nullptr, 3);
+        b.flush();
+        WriteSizeCalculator c;
+        c = b;
+        WriteSizeCalculator m(std::move(c));
+        WriteSizeCalculator m2;
+        m2 = std::move(m);
+        if (res.empty() && (a.writtenSize != enc.size() || b.writtenSize != enc.size() + 3 || m2.writtenSize != enc.size() + 3))
+          res = "WriteSizeCalculator(copy):" + std::to_string(a.writtenSize) + "/" + std::to_string(m2.writtenSize);
+      }
+      {
+        FixedBufferWriter a(enc.size() + 2);
+        std::memset(a.buffer->begin(), BG, enc.size() + 2);
+        for (auto &it : items) it->put(a);
+        FixedBufferWriter b(a);
+        if (res.empty() && (b.cursor != a.cursor || b.buffer != a.buffer || b.available() != a.available() || b.capacity() != a.capacity()))
+          res = "FixedBufferWriter(copy):state";
+        uint8_t z = 0x5a;
+        b.write(&z, 1);
+        a.flush();
+        auto v = b.getWrittenView();
+        if (res.empty() && (a.cursor != enc.size() || b.cursor != enc.size() + 1 || v->size() != enc.size() + 1 ||
+                            v->begin()[enc.size()] != 0x5a || differs(v->begin(), enc.size()) || a.available() != 2 || b.available() != 1))
+          res = "FixedBufferWriter(copy):write";
+        FixedBufferWriter c;          // default-constructed: only assigned to / destroyed
+        c = a;
+        FixedBufferWriter m(std::move(c));
+        FixedBufferWriter m2;
+        m2 = std::move(m);
+        if (res.empty() && (m2.cursor != enc.size() || m2.buffer != a.buffer || m2.capacity() != enc.size() + 2)) res = "FixedBufferWriter(assign/move):state";
+      }
+      {
+        std::shared_ptr<AbstractArray<uint8_t>> buf = bw.buffer;
+        BufferReader r(buf);
+        std::ostringstream sink;
+        if (!items.empty()) items[0]->getShow(r, sink, 0);
+        size_t c0 = r.cursor;
+        BufferReader r2(r);
+        if (res.empty() && (r2.cursor != c0 || r2.buffer != r.buffer)) res = "BufferReader(copy):state";
+        for (size_t k = 1; k < items.size() && res.empty(); ++k) {
+          std::ostringstream got, want;
+          items[k]->getShow(r2, got, (int)k);
+          items[k]->showValue(want);
+          if (got.str() != want.str()) res = "BufferReader(copy):item" + std::to_string(k);
+        }
+        BufferReader r3(std::move(r2));
+        if (res.empty() && (r.cursor != c0 || !r3.end() || (items.size() > 1) == r.end())) res = "BufferReader(copy):independence";
+      }
+    } catch (const std::exception &) {
+      res = "throw";
+    }
+    copies = res.empty() ? "ok" : res;
+  }
   // ---- every truncation point: exact-size heap copy of the first t bytes, reading must throw
   {
     std::string res;
@@ -523,7 +606,7 @@ static std::string runT(TS &ts)
     }
     if (fw.capacity() != cap) out << "!cap";
   }
-  out << " re=" << reuse << " st=" << statics;
+  out << " re=" << reuse << " st=" << statics << " cp=" << copies;
   return out.str();
 }
 
@@ -699,7 +782,7 @@ static std::string runL(TS &ts)
 // H <op>... : readers and a writer interleaved over ONE shared buffer (BufferWriter::buffer).
 //   w:<hex> wn:<n>          writer.write                           new            BufferReader r_k(writer.buffer)
 //   rd:<k>:<size>:<m>       r_k.read (m = 1: into memory, shown)    vw:<k>:<count> r_k.getView<uint8_t>(count), read at once
-//   end:<k>                 r_k.end()
+//   end:<k>                 r_k.end()                               cp:<k>         BufferReader copy of r_k
 static std::string runH(TS &ts)
 {
   BufferWriter bw;
@@ -722,6 +805,13 @@ static std::string runH(TS &ts)
         std::shared_ptr<AbstractArray<uint8_t>> b = bw.buffer;
         rs.emplace_back(new BufferReader(b));
         o << "reader=" << rs.size() - 1;
+      } else if (f[0] == "cp") {                      // BufferReader(const BufferReader &): same buffer, same cursor
+        size_t k = std::stoull(f[1]);
+        if (k >= rs.size()) o << "bad";
+        else {
+          rs.emplace_back(new BufferReader(*rs[k]));
+          o << "reader=" << rs.size() - 1 << "|" << rs.back()->cursor;
+        }
       } else {
         size_t k = std::stoull(f[1]);
         if (k >= rs.size()) o << "bad";
